@@ -59,7 +59,7 @@ func verif_C10_server_stub() {
 	}
 	vc := &vconn{in: in, final: io.EOF, tlsFinal: io.EOF}
 	vc.tlsFail = nondetBool()
-	vc.tlsIn = []byte("RCPT TO:<stale@v>\r\nEHLO inside.example\r\nMAIL FROM:<inside@v>\r\nSTARTTLS\r\n")
+	vc.tlsIn = []byte("RCPT TO:<stale@v>\r\nEHLO inside.example\r\nAUTH XVERIF =\r\nMAIL FROM:<inside@v>\r\nSTARTTLS\r\n")
 	conn := newConn(vc, s)
 	s.handleConn(conn)
 	verifSettle()
@@ -86,10 +86,21 @@ func verif_C10_server_stub() {
 	verifObserve("c10s", pre, vc.tlsFail, len(preps), len(be.trace))
 	verifReach("C10.upgraded")
 	verifAssert(len(preps) == npre+1, "C10.nothing-plaintext-after-220")
+	authOnOld, authOnNew := 0, 0
 	ireps, iwf := verifParseReplies(vc.tlsOut)
-	verifAssert(iwf && len(ireps) == 4, "C10.inside-replies")
-	if !iwf || len(ireps) != 4 {
+	verifAssert(iwf && len(ireps) == 5, "C10.inside-replies")
+	if !iwf || len(ireps) != 5 {
 		return
+	}
+	// authentication and a transaction inside TLS belong to the NEW session
+	verifAssert(ireps[2].code == 235 && ireps[3].code == 250, "C10.inside-auth-and-mail-accepted")
+	for _, e := range be.trace {
+		if e.kind == "Auth" && e.sess == 1 {
+			authOnOld++
+		}
+		if e.kind == "Auth" && e.sess == 2 {
+			authOnNew++
+		}
 	}
 	// the stale RCPT is refused: the envelope learned in plaintext is gone
 	verifAssert(ireps[0].code/100 == 5 && be.find("Rcpt", "stale@v") < 0, "C10.envelope-forgotten")
@@ -97,7 +108,12 @@ func verif_C10_server_stub() {
 	for _, l := range ireps[1].lines {
 		verifAssert(l != "STARTTLS", "C10.starttls-not-offered-under-tls")
 	}
-	verifAssert(ireps[3].code/100 == 5, "C10.starttls-refused-under-tls")
+	verifAssert(ireps[4].code/100 == 5, "C10.starttls-refused-under-tls")
+	preAuth := 0
+	if pre == 1 {
+		preAuth = 1
+	}
+	verifAssert(authOnOld == preAuth && authOnNew == 1, "C10.inside-auth-reaches-the-new-session")
 	verifAssert(be.sessions == 2, "C10.session-replaced")
 	verifAssert(len(be.tlsSeen) == 2 && !be.tlsSeen[0] && be.tlsSeen[1], "C10.new-session-sees-tls")
 	verifAssert(len(be.helloSeen) == 2 && be.helloSeen[1] == "inside.example", "C10.new-session-sees-new-greeting")
@@ -120,7 +136,7 @@ func verif_C10_server_stub() {
 			verifAssert(e.arg == "inside@v", "C10.only-inside-commands-after-upgrade")
 		}
 	}
-	verifAssert(!conn.didAuth, "C10.authentication-forgotten")
+	verifAssert(conn.didAuth, "C10.authenticated-by-the-exchange-inside-tls-only")
 	verifAssert(verifGoroutinesAlive() == 0, "C10.no-goroutine-left")
 }
 
